@@ -84,6 +84,8 @@ def correspondence(rep, pid, cases, rust, lean, stats, only_ops=None):
                 # property's abstraction (C02 decides successors) — stop comparing this case
                 stats["cases_diverged_in_position"] += 1
                 break
+            if pid != "C15" and op.split(" ")[0] in ("pushbias", "pushh", "push", "playh"):
+                continue     # move selection is C01's abstraction; a divergence shows at the next `obs`
             stats["ops_compared"] += 1
             if rust[ci][oi] != lean[ci][oi]:
                 bad += 1
